@@ -164,6 +164,8 @@ impl SerializableValue {
 pub enum SimpleValue {
     Bool(bool),
     Number(f64),
+    /// Integer number, which may not be represented exactly by `f64`.
+    Integer(i64),
     String(String, StringKind),
     Cstring(String),
     Enum(String),
@@ -181,7 +183,7 @@ impl SimpleValue {
         use SimpleValue::*;
         let tag_name = match self {
             Bool(_) => "bool",
-            Number(_) => "number",
+            Number(_) | Integer(_) => "number",
             String { .. } => "string",
             Cstring(_) => "cstring",
             Enum(_) => "enum",
@@ -226,6 +228,7 @@ impl SimpleValue {
     pub fn as_number(&self) -> Option<f64> {
         match self {
             SimpleValue::Number(x) => Some(*x),
+            SimpleValue::Integer(x) => Some(*x as f64),
             _ => None,
         }
     }
@@ -251,6 +254,7 @@ impl fmt::Display for SimpleValue {
         match self {
             Bool(b) => write!(f, "{}", if *b { "true" } else { "false" }),
             Number(d) => write!(f, "{}", d),
+            Integer(d) => write!(f, "{}", d),
             String(s, _) | Cstring(s) | Enum(s) | Set(s) | CursorShape(s) | Pixmap(s) => {
                 write!(f, "{}", s)
             }
@@ -262,7 +266,7 @@ impl EvaluatedValue {
     fn unwrap_into_simple_value(self) -> SimpleValue {
         match self {
             EvaluatedValue::Bool(v) => SimpleValue::Bool(v),
-            EvaluatedValue::Integer(v) => SimpleValue::Number(v as f64),
+            EvaluatedValue::Integer(v) => SimpleValue::Integer(v),
             EvaluatedValue::Float(v) => SimpleValue::Number(v),
             EvaluatedValue::String(s, k) => SimpleValue::String(s, k),
             // enum can't be mapped to SimpleValue without type information
